@@ -63,6 +63,11 @@ fn opener_loop(dir: &Path, sh: &Shared, loops: u64, seed: u64, who: &str) -> Vec
 	let mut out = vec![];
 	let me = std::process::id() as u64;
 	for _ in 0..loops {
+		if sh.at(VIOL).load(Ordering::SeqCst) > 0 {
+			// a violation was seen (two live handles may be writing the same files): wind down
+			// without touching the database any more
+			break
+		}
 		sh.at(OPENING).fetch_add(1, Ordering::SeqCst);
 		// every opening mode takes part in the exclusion
 		let res = match r.below(4) {
@@ -80,6 +85,11 @@ fn opener_loop(dir: &Path, sh: &Shared, loops: u64, seed: u64, who: &str) -> Vec
 				if before != 0 {
 					sh.at(VIOL).fetch_add(1, Ordering::SeqCst);
 					out.push(format!("{}: open returned Ok while {} other handle(s) were alive", who, before));
+					// never use or shut down the second handle: two sets of workers on one directory
+					// can block each other for good
+					sh.at(LIVE).fetch_sub(1, Ordering::SeqCst);
+					std::mem::forget(db);
+					break
 				}
 				// idle: failed opens of others must not change any file
 				let h0 = dir_hashes(dir);
@@ -116,6 +126,10 @@ fn opener_loop(dir: &Path, sh: &Shared, loops: u64, seed: u64, who: &str) -> Vec
 					out.push(format!("{}: files changed while the handle was idle and only refused opens happened: {:?}", who, diff));
 				}
 				sh.at(LIVE).fetch_sub(1, Ordering::SeqCst);
+				if sh.at(VIOL).load(Ordering::SeqCst) > 0 {
+					std::mem::forget(db);
+					break
+				}
 				drop(db);
 			},
 			Err(Error::Locked(_)) => {
@@ -273,6 +287,13 @@ fn case(ctx: &Ctx, rep: &mut Report, case_seed: u64, variant: u64, replay_pendin
 		}
 		ctx.progress();
 	}
+	if !msgs.is_empty() || sh.at(VIOL).load(Ordering::SeqCst) > 0 {
+		if msgs.is_empty() {
+			msgs.push("a child process saw a violation: open returned Ok while another handle was alive (other handle)".into());
+		}
+		report_c18(rep, &msgs, desc, case_seed, variant);
+		return
+	}
 	// ---- a holder process killed with SIGKILL: the directory must be openable again
 	let mut holder = std::process::Command::new(&exe)
 		.arg("--c18-child")
@@ -368,6 +389,72 @@ fn case(ctx: &Ctx, rep: &mut Report, case_seed: u64, variant: u64, replay_pendin
 			Err(e) => msgs.push(format!("final open failed with {}", e)),
 		}
 	}
+	// ---- the handle stays alive until `drop` has RETURNED: a drop that is kept busy (its last
+	// queued commit dereferences a tree whose reader the client still holds locked, so the
+	// shutdown keeps postponing it) must keep every opener out for as long as it runs
+	if msgs.is_empty() {
+		match Db::open(&opts) {
+			Ok(db) => {
+				let key = b"tree-kept-busy".to_vec();
+				let ins = db.commit_changes(vec![(
+					2u8,
+					Operation::InsertTree(key.clone(), parity_db::NewNode { data: vec![9, 9], children: vec![parity_db::NodeRef::New(parity_db::NewNode { data: vec![8], children: vec![] })] }),
+				)]);
+				let reader = db.get_tree(2, &key).ok().flatten();
+				match (ins, reader) {
+					(Ok(()), Some(reader)) => {
+						let guard = reader.read();
+						let _ = db.commit_changes(vec![(2u8, Operation::DereferenceTree(key.clone()))]);
+						let dropped = std::sync::Arc::new(std::sync::atomic::AtomicBool::new(false));
+						let d2 = dropped.clone();
+						let t = std::thread::spawn(move || {
+							drop(db);
+							d2.store(true, Ordering::SeqCst);
+						});
+						let t0 = Instant::now();
+						let mut attempts = 0u64;
+						while t0.elapsed() < Duration::from_millis(400) {
+							if dropped.load(Ordering::SeqCst) {
+								break
+							}
+							let r = match attempts % 3 {
+								0 => Db::open(&opts),
+								1 => Db::open_read_only(&opts),
+								_ => Db::open_or_create(&opts),
+							};
+							attempts += 1;
+							match r {
+								Err(Error::Locked(_)) => {},
+								Ok(d) => {
+									if !dropped.load(Ordering::SeqCst) {
+										msgs.push(format!("open returned Ok while 1 other handle(s) were alive: its drop had been running for {:?} and had not returned", t0.elapsed()));
+									}
+									drop(d);
+									break
+								},
+								Err(e) => {
+									msgs.push(format!("open during a running drop failed with {} instead of a lock error", e));
+									break
+								},
+							}
+							std::thread::sleep(Duration::from_millis(2));
+						}
+						let busy = !dropped.load(Ordering::SeqCst);
+						drop(guard);
+						let _ = t.join();
+						rep.count("opens_during_a_running_drop", attempts);
+						if busy {
+							rep.count("drops_kept_busy", 1);
+						}
+						rep.evaluations += attempts;
+						drop(reader);
+					},
+					_ => msgs.push("could not set up the busy-drop scenario (tree insertion / reader)".into()),
+				}
+			},
+			Err(e) => msgs.push(format!("open before the busy-drop scenario failed with {}", e)),
+		}
+	}
 	let ok = sh.at(OK).load(Ordering::SeqCst);
 	let locked = sh.at(LOCKED).load(Ordering::SeqCst);
 	rep.count("open_attempts", ok + locked + 2);
@@ -384,6 +471,10 @@ fn case(ctx: &Ctx, rep: &mut Report, case_seed: u64, variant: u64, replay_pendin
 	if rep.samples.len() < 2 {
 		rep.sample(J::obj().set("case", J::s(desc.to_string())).set("open_ok", J::i(ok)).set("open_locked", J::i(locked)).set("refused_while_other_process_held", J::i(sh.at(XPROC).load(Ordering::SeqCst))));
 	}
+	report_c18(rep, &msgs, desc, case_seed, variant);
+}
+
+fn report_c18(rep: &mut Report, msgs: &[String], desc: &str, case_seed: u64, variant: u64) {
 	if let Some(m) = msgs.first() {
 		let kind = if m.contains("other handle") {
 			"two_live_handles"
